@@ -112,7 +112,7 @@ def bool01? : String → Option Bool
 def ptype? : String → Option PType
   | "any" => some .any | "raw" => some .raw | "int" => some .int | "str" => some .str
   | "bool" => some .bool | "ptrInt" => some .ptrInt | "ints" => some .ints
-  | "vstruct" => some .vstruct | "bounds" => some .bounds
+  | "vstruct" => some .vstruct | "bounds" => some .bounds | "vslice" => some .vslice | "vmap" => some .vmap
   | _ => none
 
 def behaviour? : String → Option Behaviour
